@@ -25,6 +25,9 @@ def main() -> None:
             na.append({"property_id": pid, "reason": PENDING_REASON.get(pid, "no check registered yet: the Coq model and correspondence harness for this property are not built at this commit (see DESIGN.md section 4 for the planned design)")})
             continue
         meta = importlib.import_module(f"harness.{pid.lower()}").META
+        if not meta.get("ready"):
+            na.append({"property_id": pid, "reason": "check under construction at this commit (harness exists but has not yet passed its acceptance runs); see DESIGN.md section 4"})
+            continue
         c = {
             "property_id": pid,
             "quick_cmd": f"./check {pid} --tier quick",
